@@ -293,6 +293,31 @@ func runC02(c *eng.Ctx) {
 	}
 	// (a1) constructors one output of which is nil on the first invocation (retry must not replace what the scope serves)
 	core.RunPartialOutputs(c, "C02", next)
+	// (a2) every special constructor form as a scoped service (plus, less often, the other lifetimes)
+	for fi, ss := range core.FormSpecs() {
+		if l := ss.FormLifetime(); l != godi.Scoped && fi%4 != 0 {
+			continue
+		}
+		idx, mine := next()
+		if !mine {
+			continue
+		}
+		c.R.Begin(idx)
+		c.R.Count("form_specs", 1)
+		r := core.NewRun(ss.Spec, core.NewModel(ss.Spec), nil, nil)
+		r.Build()
+		if r.Built {
+			a := r.Do(core.Op{Kind: core.OpCreate, Scope: 0, CtxKind: 1})
+			b := r.Do(core.Op{Kind: core.OpCreate, Scope: a.NewScope, CtxKind: 0})
+			core.ProbeRegistered(r, b.NewScope)
+			core.ProbeRegisteredReverse(r, b.NewScope)
+			core.ProbeRegistered(r, a.NewScope)
+			core.ProbeRegistered(r, 0)
+			core.ProbeRegistered(r, a.NewScope)
+			r.Finish()
+		}
+		finish(idx, r, "form", map[string]any{"kind": "form", "variant": ss.Consumer})
+	}
 	// (a) sequential random
 	nSeq := c.Pick(600, 20000)
 	for k := 0; k < nSeq; k++ {
